@@ -388,7 +388,8 @@ std::string run(verif::Reader &rd, Case &c, World &w) {
                 break; }
             case 65: {   // set_validated, four overloads; sources: harness bytes, a temporary buffer, a result-pool buffer by const reference / rvalue
                 int v = (int)rd.range(0, 5); std::string val = value(rd, w.L); verif::Exact<char> e(val.data(), val.size());
-                int k2 = (int)rd.idx(NR); bool pool = v >= 4 && w.r[k2].kind == 1;
+                int k2 = (int)rd.idx(NR); for (int z = 0; z < NR && w.r[k2].kind != 1; z++) k2 = (k2 + 1) % NR;     // prefer a live char_buffer of the result pool
+                bool pool = v >= 4 && w.r[k2].kind == 1;
                 w.mutated(i);
                 { va::LibScope l;
                   switch (v) {
@@ -469,11 +470,14 @@ std::string run(verif::Reader &rd, Case &c, World &w) {
                 w.snap(k2); R.derived_from = i;
                 lab(c, "to_buffer(out-param)"); w.note("%d.to_buffer(result%d kind %d)#%d; ", i, k2, R.kind, v); break; }
             case 71: {   // strings made from result-pool buffers, taken by const reference or by rvalue
-                int k2 = (int)rd.idx(NR); int kind = 1 + (int)rd.idx(4); int v = (int)rd.range(0, 13);
+                static const int kinds[8] = {1, 1, 2, 3, 4, 1, 1, 1};
+                int k2 = (int)rd.idx(NR); int kind = kinds[rd.idx(8)]; int v = (int)rd.range(0, 13);
+                if (w.r[k2].kind != kind && (v & 1)) w.destroy_res(k2);      // half of the time a buffer of another kind makes room for the drawn kind
                 static const ST::utf_validation_t vals[3] = {ST::assume_valid, ST::substitute_invalid, ST::check_validity};
                 ST::utf_validation_t val = vals[rd.idx(3)];
                 w.ensure_buffer(k2, kind, i);
                 Res &R = w.r[k2]; bool moved = false; int from = R.derived_from;
+                if (R.kind == 1 && (v == 3 || v >= 12) && capped(R.snap.size() * 2 + 8)) break;      // from_latin_1 / hex / base64 of a buffer grow it
                 int t = w.emplace([&](ST::string *q) {
                     switch (R.kind) {
                     case 1: { ST::char_buffer &b = *static_cast<ST::char_buffer *>(R.obj); const ST::char_buffer &cb = b;
@@ -557,7 +561,7 @@ std::string run(verif::Reader &rd, Case &c, World &w) {
                 target = t1; if (mi.size() >= w.L - 1) w.nontrivial = true;
                 lab(c, "copies-of-copies"); w.note("copies of %d (how %d); ", i, how); break; }
             case 74: case 75: {   // further const calls that return strings: C-string arguments point into pool strings, char8_t / deprecated overloads, converting round trips
-                int v = (int)rd.range(0, 39); size_t sz = S->size(); size_t a = rd.range(0, sz), n = rd.range(0, sz - a);
+                int v = (int)rd.range(0, 46); size_t sz = S->size(); size_t a = rd.range(0, sz), n = rd.range(0, sz - a);
                 bool ci = rd.flag(); ST::case_sensitivity_t cs = ci ? ST::case_insensitive : ST::case_sensitive;
                 {   // worst-case result sizes of the growing forms
                     size_t from_len = (v == 5 || v == 7) ? 1 : (v == 2 || v == 6 || v == 8) ? J->size() : strlen(J->c_str());
@@ -609,6 +613,13 @@ std::string run(verif::Reader &rd, Case &c, World &w) {
                         case 35: { what = "string_stream.append"; ST::string_stream ss; ss.append(S->c_str(), sz); ss << J->c_str(); ss.append_char('x', 3); new (q) ST::string(ss.to_string(true, ST::assume_valid)); break; }
                         case 36: what = "string(own c_str)"; new (q) ST::string(ci ? ST::string(S->c_str()) : ST::string::from_utf8(S->c_str())); break;
                         case 37: what = "from_path(to_path)"; new (q) ST::string(ci ? ST::string::from_path(S->to_path()) : ST::string(S->to_path())); break;
+                        case 40: what = "from_int/uint/float/bool"; new (q) ST::string(ci ? ST::string::from_int((long long)0x7FFFFFFFFFFFFFFFll - (long long)sz, 2) : ST::string::from_int(-(int)sz - 1, 10)); break;
+                        case 41: what = "from_int/uint/float/bool"; new (q) ST::string(ci ? ST::string::from_uint((unsigned long long)-1 - sz, 2, true) : ST::string::from_uint((unsigned)sz, 16, true)); break;
+                        case 42: what = "from_int/uint/float/bool"; new (q) ST::string(ci ? ST::string::from_int((short)-(short)(sz & 0x7FFF), 8) : ST::string::from_uint((unsigned short)sz, 36)); break;
+                        case 43: what = "from_int/uint/float/bool"; new (q) ST::string(ci ? ST::string::from_int((long)sz, 3) : ST::string::from_uint((unsigned long)sz << 40, 2)); break;
+                        case 44: what = "from_int/uint/float/bool"; new (q) ST::string(ci ? ST::string::from_double(1e100 + (double)sz, 'f') : ST::string::from_float(0.5f * (float)sz, 'e')); break;
+                        case 45: what = "from_int/uint/float/bool"; new (q) ST::string(ci ? ST::string::from_int64(-(int64_t)sz - 5000000000ll, 2) : ST::string::from_uint64((uint64_t)sz * 0x100000001ull, 16)); break;
+                        case 46: what = "from_int/uint/float/bool"; new (q) ST::string(ci ? ST::string::from_bool(sz & 1) : ST::string::from_float((double)sz / 7.0)); break;
                         case 38: what = "substr(negative)"; new (q) ST::string(S->substr(-(ST_ssize_t)a, n)); break;
                         default: what = "left/right(own size)"; new (q) ST::string(ci ? S->left(sz) : S->right(sz)); break;
                         } }, i);
